@@ -470,6 +470,7 @@ func (a *analysis) result() *result {
 	res.Summary.StaleKnown = len(res.StaleKnown)
 
 	a.channelOps(res, remap)
+	a.checkThenAct(res, remap, acq)
 
 	for f, es := range a.entry {
 		if len(es.locks) == 0 || a.funcs[f] == nil {
@@ -996,4 +997,91 @@ func (a *analysis) channelOps(res *result, remap map[int]int) {
 			}
 		}
 	}
+}
+
+// checkThenAct resolves the candidate pairs: a value obtained under a guard
+// lock L in a hold that is over (inside a callee, or an earlier hold of this
+// function) is tested, and L is acquired again later in the same function.
+func (a *analysis) checkThenAct(res *result, remap map[int]int, acq map[*types.Func]map[int]bool) {
+	guardLock := map[int]bool{}
+	for _, rc := range a.cfg.Roots {
+		for _, g := range rc.Guards {
+			if name, _, ok := a.lockClassOfPath(rc.Type, g); ok {
+				if c := a.classes[name]; c != nil {
+					guardLock[c.id] = true
+				}
+			}
+		}
+	}
+	type key struct{ fn, lock, src string }
+	rows := map[key]*ctaOut{}
+	for _, p := range a.ctaPairs {
+		// the locks under which the value was obtained
+		srcLocks := map[int]bool{}
+		if p.src.callee == nil {
+			srcLocks[p.src.class] = true
+		} else {
+			for k := range acq[p.src.callee] {
+				if guardLock[k] && !p.src.held[k] {
+					srcLocks[k] = true
+				}
+			}
+		}
+		actLocks := map[int]bool{}
+		if p.actClass >= 0 {
+			actLocks[p.actClass] = true
+		} else {
+			for k := range acq[p.actCallee] {
+				actLocks[k] = true
+			}
+		}
+		for k := range srcLocks {
+			if !guardLock[k] || !actLocks[k] {
+				continue
+			}
+			kk := key{p.fn, "", p.src.name}
+			r := rows[kk]
+			if r == nil {
+				r = &ctaOut{Func: p.fn, Lock: remap[k], Source: p.src.name, CondPos: p.condPos, ActPos: p.actPos}
+				rows[kk] = r
+			}
+			if !strings.Contains(";"+r.LockName+";", ";"+a.classByID(k)+";") {
+				if r.LockName != "" {
+					r.LockName += ";"
+				}
+				r.LockName += a.classByID(k)
+			}
+		}
+	}
+	used := make([]bool, len(a.cfg.CheckThenAct))
+	for _, r := range rows {
+		ls := strings.Split(r.LockName, ";")
+		sort.Strings(ls)
+		r.LockName = strings.Join(ls, ";")
+		for j, b := range a.cfg.CheckThenAct {
+			if b.Func == r.Func && b.Source == r.Source {
+				r.Listed = true
+				used[j] = true
+			}
+		}
+		res.CTA = append(res.CTA, *r)
+	}
+	for j, b := range a.cfg.CheckThenAct {
+		if !used[j] {
+			res.StaleKnown = append(res.StaleKnown, fmt.Sprintf("check-then-act %s %s %s", b.Func, b.Lock, b.Source))
+		}
+	}
+	sort.Slice(res.CTA, func(i, j int) bool {
+		x, y := res.CTA[i], res.CTA[j]
+
+		return x.Func+x.LockName+x.Source < y.Func+y.LockName+y.Source
+	})
+	for i := range res.CTA {
+		res.CTA[i].Site = i
+		if !res.CTA[i].Listed {
+			res.Summary.UnlistedCTA++
+		}
+	}
+	res.Summary.CTARows = len(res.CTA)
+	res.Summary.StaleKnown = len(res.StaleKnown)
 }
